@@ -50,7 +50,7 @@ func (c *Core) Describe() string {
 		for _, st := range cl.Steps {
 			n += len(st.Reqs)
 			bytes += len(st.Data)
-			kinds = append(kinds, []string{"send", "close", "halfclose", "reset", "pause", "resume", "handshake"}[st.Kind])
+			kinds = append(kinds, []string{"send", "close", "halfclose", "reset", "pause", "resume", "handshake", "wait"}[st.Kind])
 		}
 		fmt.Fprintf(&b, " %s{reqs=%d bytes=%d window=%d late=%v steps=%s}", cl.name(), n, bytes, cl.Window, cl.Late, strings.Join(kinds, ","))
 	}
